@@ -79,6 +79,7 @@ public:
     int side = 0;
     bool simEncrypted = false;
     bool directTls = false;
+    bool directTlsRequested = false;   // set by the connectToHostEncrypted() seam
     bool deferDisconnect = false;   // buggify: disconnectFromHost() completes one step later
     bool closePending = false;
 
